@@ -57,7 +57,7 @@ pub fn kid_is_stream(fam: Fam, i: usize) -> bool {
     }
 }
 
-pub const ARRAY_LENS: [usize; 8] = [0, 1, 2, 3, 4, 5, 8, 13];
+pub const ARRAY_LENS: [usize; 9] = [0, 1, 2, 3, 4, 5, 8, 13, 257];
 
 /// can this (family, container, n) be built in the current feature configuration?
 pub fn supported(fam: Fam, cont: Cont, n: usize) -> bool {
@@ -209,6 +209,7 @@ macro_rules! arr_dispatch {
             5 => $f::<5>($cid, $v),
             8 => $f::<8>($cid, $v),
             13 => $f::<13>($cid, $v),
+            257 => $f::<257>($cid, $v),
             n => unreachable!("array length {n} not instantiated"),
         }
     };
@@ -336,6 +337,7 @@ pub struct LeafSpec {
     /// the stream's script goes on after its first `End` (a non-fused stream that is polled again after `None`)
     pub resumable: bool,
     pub wake_on_drop: bool,
+    pub hint_mode: u8,
 }
 
 impl Builder {
@@ -358,6 +360,7 @@ impl Builder {
             c.always_ready = spec.always_ready;
             c.resumable = spec.resumable;
             c.wake_on_drop = spec.wake_on_drop;
+            c.hint_mode = spec.hint_mode;
             c.parent = Some(parent);
             if c.never {
                 w.st.never_children += 1;
